@@ -20,6 +20,7 @@ def query_pairs(ctx, edges_file, cfg, out, stride):
     init = None
     step = {}          # state -> {label_json: target}
     queries = {}
+    interferers = {}   # operations that leave the caller's facts alone but go through the engine (aggregate queries)
     for ln in open(edges_file):
         e = json.loads(ln)
         if "init" in e:
@@ -29,6 +30,8 @@ def query_pairs(ctx, edges_file, cfg, out, stride):
             step.setdefault(e["s"], []).append((e["l"], e["t"]))
         elif e["l"]["op"] == "pquery":
             queries[json.dumps(e["l"], sort_keys=True)] = e["l"]
+        elif e["l"]["op"] == "pagg":
+            interferers[json.dumps(e["l"], sort_keys=True)] = e["l"]
     states = sorted(set(step) | {t for v in step.values() for _, t in v})
 
     def paths_from(s):
@@ -67,6 +70,19 @@ def query_pairs(ctx, edges_file, cfg, out, stride):
                     steps = [{"l": l, "o": {"ok": True}} for l in allp[init][s1]]
                     steps.append({"l": qu, "o": {"agrees": True}})
                     steps += [{"l": l, "o": {"ok": True}} for l in allp[s1][s2]]
+                    steps.append({"l": qu, "o": {"agrees": True}})
+                    o.write(json.dumps({"steps": steps}, separators=(",", ":")) + "\n")
+                    n += 1
+        # interference cover: on every fact store, every aggregate query (over a pattern, and one whose pattern does not parse)
+        # followed by every query
+        for s1 in states:
+            if s1 not in allp[init]:
+                continue
+            for xk in sorted(interferers):
+                for qu in qs:
+                    steps = [{"l": l, "o": {"ok": True}} for l in allp[init][s1]]
+                    steps.append({"l": qu, "o": {"agrees": True}})
+                    steps.append({"l": interferers[xk], "o": {"ok": True}})
                     steps.append({"l": qu, "o": {"agrees": True}})
                     o.write(json.dumps({"steps": steps}, separators=(",", ":")) + "\n")
                     n += 1
